@@ -250,6 +250,7 @@ class FormulaManager(object):
             raise PysmtTypeError("Cannot create a Times without arguments.")
 
         if len(tuple_args) == 1:
+            self._check_single_arg(tuple_args[0], "Times", arith=True)
             return tuple_args[0]
         else:
             return self.create_node(node_type=op.TIMES,
@@ -441,6 +442,7 @@ class FormulaManager(object):
         if len(tuple_args) == 0:
             return self.TRUE()
         elif len(tuple_args) == 1:
+            self._check_single_arg(tuple_args[0], "And", arith=False)
             return tuple_args[0]
         else:
             return self.create_node(node_type=op.AND,
@@ -460,6 +462,7 @@ class FormulaManager(object):
         if len(tuple_args) == 0:
             return self.FALSE()
         elif len(tuple_args) == 1:
+            self._check_single_arg(tuple_args[0], "Or", arith=False)
             return tuple_args[0]
         else:
             return self.create_node(node_type=op.OR,
@@ -481,6 +484,7 @@ class FormulaManager(object):
             raise PysmtTypeError("Cannot create a Plus without arguments.")
 
         if len(tuple_args) == 1:
+            self._check_single_arg(tuple_args[0], "Plus", arith=True)
             return tuple_args[0]
         else:
             return self.create_node(node_type=op.PLUS,
@@ -1147,6 +1151,18 @@ class FormulaManager(object):
             self._normalizer = FormulaContextualizer(self.env)
 
         return assert_not_none(self._normalizer).walk(formula)
+
+    def _check_single_arg(self, arg: FNode, name: str, arith: bool):
+        """An n-ary operator applied to one argument returns that argument:
+        no node is created, so the sort of the argument is checked here."""
+        t = self.env.stc.get_type(arg)
+        if arith:
+            ok = t.is_int_type() or t.is_real_type()
+        else:
+            ok = t.is_bool_type()
+        if not ok:
+            raise PysmtTypeError("%s cannot be applied to an argument of type %s"
+                                 % (name, t))
 
     def _polymorph_args_to_tuple(self, args: Sequence[Union[FNode, Iterable[FNode]]]) -> Tuple[FNode, ...]:
         """ Helper function to return a tuple of arguments from args.
